@@ -122,10 +122,21 @@ def run_calls(py7zr, raw, shape, info, calls, *, target="stream", password=None,
             try:
                 if c["name"] in ("extract", "extractall"):
                     tg = None
+                    # the flag as a caller may pass it: the annotated type is Optional[bool], any truth value is in use
+                    recarg = ([True, 1] if c.get("rec", False) else [False, None, 0])[c.get("recform", 0) % (2 if c.get("rec", False) else 3)]
                     if c["name"] == "extract":
                         tg = []
                         for t in c.get("T", []):
-                            nm = names[t - 1] if t >= 1 else f"absent{-t}/nothing"
+                            if t >= 1:
+                                nm = names[t - 1]
+                            else:
+                                # a name that is not in the archive - also one that is a string prefix of names that are
+                                k = (len(names) * 7 + len(trace)) % max(1, len(names))
+                                cands = [f"absent{-t}/nothing", names[k][:-1] if names else "q", (names[k] + "0") if names else "q0", "",
+                                         names[k][:1] if names else "q"]
+                                nm = cands[c.get("absent", 0) % len(cands)]
+                                if nm in names or (nm + "/") in names:
+                                    nm = cands[0]
                             sl = c.get("slash", "none")
                             add = sl == "all" or (sl == "dirs" and t >= 1 and shape["members"][t - 1]["kind"] == "dir")
                             tg.append(nm + "/" if add else nm)
@@ -135,7 +146,7 @@ def run_calls(py7zr, raw, shape, info, calls, *, target="stream", password=None,
                         nout += 1
                         od = os.path.join(workdir, f"out{nout}")
                         if c["name"] == "extract":
-                            z.extract(od, targets=tg, recursive=c.get("rec", False))
+                            z.extract(od, targets=tg, recursive=recarg)
                         else:
                             z.extractall(od)
                         snap = _snapshot(od) if os.path.isdir(od) else {}
@@ -153,7 +164,7 @@ def run_calls(py7zr, raw, shape, info, calls, *, target="stream", password=None,
                     else:
                         fac = py7zr.io.BytesIOFactory(1 << 30)
                         if c["name"] == "extract":
-                            z.extract(targets=tg, recursive=c.get("rec", False), factory=fac)
+                            z.extract(targets=tg, recursive=recarg, factory=fac)
                         else:
                             z.extractall(factory=fac)
                         for nm, prod in fac.products.items():
